@@ -1,5 +1,6 @@
 import YaqsModel.Lemmas.PipelineJump
 import YaqsModel.Lemmas.GridFl
+import YaqsModel.Lemmas.Storage
 
 /-!
 # C15 — results are reported on the time grid the user asked for
@@ -258,3 +259,353 @@ theorem grid_old_counterexample :
   decide +kernel
 
 end Yaqs.Grid
+
+
+/-!
+## Result storage (`Model/Storage.lean`): where the columns are kept and how they are reduced
+
+`columns` says what every back-end *returns*; the theorems below carry that to what the user *reads*:
+`Observable.initialize` allocates `trajectories` with one row per trajectory and exactly the columns the back-end
+returns (`storage_shape`), so the assignment `trajectories[i] = result[obs_index]` copies — numpy would silently repeat a
+length-1 row and raise on any other mismatch (`assign_mismatch`); `aggregate_trajectories` makes `results[k]` the
+average over the trajectories of column `k` (`results_is_mean`, `run_results_is_mean`), except for Schmidt spectra,
+which are concatenated (`schmidt_is_concatenation`); the observable's `times` attribute is the grid with sampling on
+and the scalar `elapsed_time` with sampling off (`times_attr`); weak mode merges the per-trajectory count dictionaries
+(`aggregate_measurements_total`, `weak_branch`).  `mean_of_constant` / `mean_linear` / `mean_additive`: averaging is linear.
+-/
+namespace Yaqs.Storage
+open Yaqs.Params (Counts addAll sortCounts total)
+open Yaqs.Pipeline (tjm2Out tjm1Out mcwfOut lindbladOut)
+
+/-- **C15 (storage has the shape of what the back-ends return)**  For every mode, every setting and every kind of
+    observable (`Observable.initialize` never looks at the kind — Schmidt spectra and diagnostics get the same scalar
+    storage): `trajectories` has `num_traj` rows (weak: `shots`) and one column per grid point (analog:
+    `len(times)`, strong with `sample_layers`: `num_mid_measurements + 2`), resp. exactly one column with sampling off;
+    that is the column count of the array every back-end returns (`backendCols`, and for the analog back-ends the
+    lengths of `tjm2Out`, `tjm1Out`, `mcwfOut`, `lindbladOut` of theorem `columns`, grid of `n ≥ 2` points); hence
+    filling the rows from any back-end result of that shape stores exactly the returned rows: nothing is broadcast,
+    nothing truncated, nothing raises. -/
+theorem storage_shape (s : Settings) (k : ObsKind) :
+    (allocate s k).rows = (if s.mode = .weak then s.shots else s.numTraj) ∧
+    (allocate s k).cols = (match s.mode with
+      | .analog => if s.sample then s.times.length else 1
+      | .strong => if s.sample then s.nMid + 2 else 1
+      | .weak => 1) ∧
+    (∀ k', allocate s k' = allocate s k) ∧
+    (∀ c, backendCols s = some c → c = (allocate s k).cols) ∧
+    (s.mode = .analog → 2 ≤ s.times.length → ∀ (J : List Nat) (noise : Bool),
+      (tjm2Out J s.sample s.times.length).length = (allocate s k).cols ∧
+      (tjm1Out J s.sample noise s.times.length).length = (allocate s k).cols ∧
+      (mcwfOut s.sample s.times.length).length = (allocate s k).cols ∧
+      (lindbladOut s.sample s.times.length).length = (allocate s k).cols) ∧
+    (∀ (res : Nat → List Rat) (c : Nat), backendCols s = some c →
+      (∀ i, i < (allocate s k).rows → (res i).length = c) →
+      fill (allocate s k) res = .ok ((List.range (allocate s k).rows).map res)) := by
+  refine ⟨?_, ?_, ?_, ?_, ?_, ?_⟩
+  · unfold allocate; cases s.mode <;> cases s.sample <;> simp
+  · unfold allocate; cases s.mode <;> cases s.sample <;> simp
+  · intro k'; rfl
+  · intro c hc
+    unfold backendCols at hc
+    unfold allocate
+    cases hm : s.mode <;> cases hs : s.sample <;> simp [hm, hs] at hc ⊢ <;> omega
+  · intro hm hn J noise
+    have h1 : 1 ≤ s.times.length := by omega
+    unfold allocate
+    cases hs : s.sample
+    · cases noise <;>
+        simp [hm, Pipeline.tjm2Out_nosamp J _ hn, Pipeline.tjm1Out_nosamp J _ hn, Pipeline.tjm1Out_nosamp_nonoise J _ hn,
+          Pipeline.mcwfOut_nosamp _ hn, Pipeline.lindbladOut_nosamp _ h1]
+    · cases noise <;>
+        simp [hm, Pipeline.tjm2Out_samp J _ hn, Pipeline.tjm1Out_samp J _ h1, Pipeline.tjm1Out_samp_nonoise J _ h1,
+          Pipeline.mcwfOut_samp _ h1, Pipeline.lindbladOut_samp _ h1]
+  · intro res c hc hlen
+    apply fill_ok
+    intro i hi
+    rw [hlen i hi]
+    unfold backendCols at hc
+    unfold allocate
+    cases hm : s.mode <;> cases hs : s.sample <;> simp [hm, hs] at hc ⊢ <;> omega
+
+/-- non-vacuity / concrete shapes: 3 trajectories on the 4-point grid `0, 0.1, 0.2, 0.3`; sampling on gives a
+    3 × 4 float64 table, sampling off a 3 × 1 complex128 one; strong with two sampling barriers 3 × 4, weak `shots × 1` -/
+example :
+    allocate ⟨.analog, 3, 0, true, 0, [0, 1/10, 2/10, 3/10], 3/10⟩ .loc
+      = ⟨3, 4, .f64, 4, .grid [0, 1/10, 2/10, 3/10]⟩ ∧
+    allocate ⟨.analog, 3, 0, false, 0, [0, 1/10, 2/10, 3/10], 3/10⟩ .schmidt = ⟨3, 1, .c128, 4, .scalar (3/10)⟩ ∧
+    allocate ⟨.strong, 3, 0, true, 2, [], 0⟩ .diag = ⟨3, 4, .c128, 4, .untouched⟩ ∧
+    allocate ⟨.strong, 3, 0, false, 2, [], 0⟩ .loc = ⟨3, 1, .c128, 1, .untouched⟩ ∧
+    allocate ⟨.weak, 0, 5, false, 0, [], 0⟩ .loc = ⟨5, 1, .c128, 1, .untouched⟩ ∧
+    fill (allocate ⟨.analog, 2, 0, true, 0, [0, 1/10, 2/10], 2/10⟩ .loc) (fun i => [(i : Rat), 1, 2])
+      = .ok [[0, 1, 2], [1, 1, 2]] := by decide +kernel
+
+/-- **C15 (why the shapes must agree)**  `trajectories[i] = row` in numpy: a row of the right length is copied; a row
+    of length 1 is *silently repeated* into every column (so storage with more columns than the back-end returns would
+    report the final value at every grid point); any other length raises `ValueError` (storage with `len(times) - 1`
+    columns cannot be filled); and one wrong row makes the whole fill fail. -/
+theorem assign_mismatch (cols : Nat) (row : List Rat) :
+    (row.length = cols → assignRow cols row = .ok row) ∧
+    (∀ x, cols ≠ 1 → assignRow cols [x] = .ok (List.replicate cols x)) ∧
+    (row.length ≠ cols → row.length ≠ 1 → assignRow cols row = .error (.broadcast row.length cols)) ∧
+    (∀ (res : Nat → List Rat) (n : Nat), (∃ i, i < n ∧ (res i).length ≠ cols ∧ (res i).length ≠ 1) →
+      ∃ e, fillFrom cols res (List.range n) = .error e) :=
+  ⟨assignRow_exact cols row, fun x h => assignRow_broadcast cols x h, assignRow_error cols row,
+   fun res _ ⟨i, hi, h1, h2⟩ => fillFrom_error cols res _ ⟨i, List.mem_range.mpr hi, h1, h2⟩⟩
+
+example : assignRow 3 [7] = .ok [7, 7, 7] ∧ assignRow 3 [1, 2, 3, 4] = .error (.broadcast 4 3) ∧
+    assignRow 3 [1, 2] = .error (.broadcast 2 3) ∧ assignCells 3 [[1/2, 1/2], [1], [1]] = .error .sequence := by
+  decide +kernel
+
+/-- **C15 / C11 (`results` is the average over trajectories, column by column)**  For every observable that is not a
+    Schmidt spectrum and every non-empty `rows × cols` table: `results` has `cols` entries and
+    `results[k] = (Σ_i trajectories[i][k]) / num_traj`; with a single trajectory `results` *is* that trajectory. -/
+theorem results_is_mean (k : ObsKind) (hk : k ≠ .schmidt) (cols : Nat) :
+    (∀ t : List (List Rat), t ≠ [] → ∃ v, aggregateObs k cols t = .values v ∧ v.length = cols ∧
+      ∀ j, j < cols → v[j]? = some ((t.map (fun r => r.getD j 0)).sum / (t.length : Rat))) ∧
+    (∀ r : List Rat, r.length = cols → aggregateObs k cols [r] = .values r) ∧
+    aggregateObs k cols [] = .nan cols := by
+  have hagg : ∀ t, aggregateObs k cols t = meanAxis0 cols t := by
+    intro t; cases k <;> first | rfl | exact absurd rfl hk
+  refine ⟨?_, ?_, ?_⟩
+  · intro t hne
+    refine ⟨_, by rw [hagg, meanAxis0_ne_nil _ _ hne], by simp, ?_⟩
+    intro j hj
+    simp [List.getElem?_map, List.getElem?_range hj, colSum]
+  · intro r hr; rw [hagg, meanAxis0_single _ _ hr]
+  · rw [hagg]; rfl
+
+/-- 3 trajectories, 2 columns: the means are 2 and 20/3 — not the first trajectory, not the row means -/
+example : aggregateObs .loc 2 [[1, 4], [2, 6], [3, 10]] = .values [2, 20 / 3] ∧
+    meanAxis1 [[1, 4], [2, 6], [3, 10]] = [5 / 2, 4, 13 / 2] ∧
+    aggregateObs .entropy 2 [[1, 4]] = .values [1, 4] := by decide +kernel
+
+/-- **C15 (allocate → fill → reduce, as `_run_analog` / `_run_strong_sim` do it)**  If every trajectory's back-end
+    call returns a row of the back-end's width for this observable, the run ends with `trajectories` = exactly those
+    rows, and `results[j] = (Σ_{i < num_traj} row_i[j]) / num_traj` for every column `j`; `results` has one entry per
+    column whatever `initialize` had pre-allocated for it (with `sample_timesteps=False` the pre-allocated `results`
+    has `len(times)` entries, the delivered one has 1). -/
+theorem run_results_is_mean (s : Settings) (k : ObsKind) (hk : k ≠ .schmidt) (hm : s.mode ≠ .weak)
+    (hT : 0 < s.numTraj) (res : Nat → List Rat) (c : Nat) (hc : backendCols s = some c)
+    (hlen : ∀ i, i < s.numTraj → (res i).length = c) :
+    ∃ v, runObservable s k res = .ok ⟨allocate s k, (List.range s.numTraj).map res, .values v⟩ ∧
+      v.length = c ∧
+      ∀ j, j < c → v[j]? = some (((List.range s.numTraj).map (fun i => (res i).getD j 0)).sum / (s.numTraj : Rat)) := by
+  obtain ⟨hrows, _, _, hcols, _, hfill⟩ := storage_shape s k
+  have hr : (allocate s k).rows = s.numTraj := by rw [hrows]; simp [hm]
+  have hcc := hcols c hc
+  have hne : (List.range s.numTraj).map res ≠ [] := by
+    cases hn : s.numTraj with
+    | zero => omega
+    | succ n => simp [List.range_succ]
+  obtain ⟨v, hv, hl, hj⟩ := (results_is_mean k hk c).1 _ hne
+  refine ⟨v, ?_, hl, ?_⟩
+  · unfold runObservable
+    simp only [hfill res c hc (by rw [hr]; exact hlen), hr, ← hcc, hv]
+  · intro j hjc
+    rw [hj j hjc]
+    simp [List.map_map, Function.comp_def]
+
+/-- a noisy analog run with 2 trajectories on a 3-point grid, and the same with sampling off -/
+example :
+    runObservable ⟨.analog, 2, 0, true, 0, [0, 1/10, 2/10], 2/10⟩ .loc (fun i => [1, (i : Rat), 3])
+      = .ok ⟨⟨2, 3, .f64, 3, .grid [0, 1/10, 2/10]⟩, [[1, 0, 3], [1, 1, 3]], .values [1, 1/2, 3]⟩ ∧
+    runObservable ⟨.analog, 2, 0, false, 0, [0, 1/10, 2/10], 2/10⟩ .loc (fun i => [(i : Rat)])
+      = .ok ⟨⟨2, 1, .c128, 3, .scalar (2/10)⟩, [[0], [1]], .values [1/2]⟩ := by decide +kernel
+
+/-- **C15 (Schmidt spectra are not averaged)**  For `schmidt_spectrum` observables `aggregate_trajectories`
+    concatenates the trajectories' rows (row-major), so `results` has `Σ_i len(trajectories[i])` entries —
+    `num_traj · cols` for a rectangular table — and the values of trajectory `i` start at offset `i · cols`; for
+    cells that are vectors (`concatCells`) every cell is flattened in place.  (Through `simulator.run` this branch
+    is unreachable today: scalar storage refuses a vector cell, known finding D29.) -/
+theorem schmidt_is_concatenation (cols : Nat) (t : List (List Rat)) (hne : t ≠ []) :
+    aggregateObs .schmidt cols t = .values t.flatten ∧
+    ((∀ r ∈ t, r.length = cols) → t.flatten.length = t.length * cols) ∧
+    concatCells (t.map (·.map (fun x => [x]))) = .values t.flatten := by
+  refine ⟨?_, ?_, ?_⟩
+  · cases t with
+    | nil => exact absurd rfl hne
+    | cons r t => rfl
+  · intro h
+    induction t with
+    | nil => simp
+    | cons r t ih =>
+      cases t with
+      | nil => simp [h r (by simp)]
+      | cons r' t' =>
+        have := ih (by simp) (fun x hx => h x (by simp [hx]))
+        simp only [List.flatten_cons, List.length_append, List.length_cons] at this ⊢
+        rw [h r (by simp), this]; ring
+  · cases t with
+    | nil => exact absurd rfl hne
+    | cons r t =>
+      simp only [concatCells, List.map_cons, List.isEmpty_cons, Bool.false_eq_true, if_false]
+      congr 1
+      have hflat : ∀ r : List Rat, (r.map (fun x => [x])).flatten = r := by
+        intro r; induction r with
+        | nil => rfl
+        | cons x xs ih => simp [ih]
+      simp [List.map_map, Function.comp_def, hflat]
+
+example : aggregateObs .schmidt 2 [[1, 4], [2, 6]] = .values [1, 4, 2, 6] ∧
+    concatCells [[[1/2, 1/2], [1]], [[3/4, 1/4], [1]]] = .values [1/2, 1/2, 1, 3/4, 1/4, 1] ∧
+    aggregateObs .schmidt 2 [] = .valueError := by decide +kernel
+
+/-- **C15 (the observable's `times`)**  Analog with `sample_timesteps`: the grid itself (`sim_params.times`, whose
+    length and entries are `grid_exec`'s).  Analog without: the scalar `elapsed_time` the caller passed — *not* the
+    last grid point; the two agree iff `elapsed_time` is the last grid point.  Strong / weak: `initialize` does not
+    assign the attribute (a fresh observable has none, a reused one keeps the value of its last analog run).
+    The pre-allocated `results` has `len(times)` entries in both analog settings. -/
+theorem times_attr (s : Settings) (k : ObsKind) :
+    (s.mode = .analog → s.sample = true → (allocate s k).times = .grid s.times) ∧
+    (s.mode = .analog → s.sample = false → (allocate s k).times = .scalar s.elapsed) ∧
+    (s.mode = .analog → s.sample = false →
+      ((allocate s k).times = .scalar (s.times.getLastD 0) ↔ s.elapsed = s.times.getLastD 0)) ∧
+    (s.mode ≠ .analog → (allocate s k).times = .untouched) ∧
+    (s.mode = .analog → (allocate s k).resultsLen = s.times.length) := by
+  unfold allocate
+  refine ⟨?_, ?_, ?_, ?_, ?_⟩
+  · intro hm hs; simp [hm, hs]
+  · intro hm hs; simp [hm, hs]
+  · intro hm hs; simp [hm, hs]
+  · intro hm; cases h : s.mode <;> cases s.sample <;> simp_all
+  · intro hm; cases s.sample <;> simp [hm]
+
+/-- `elapsed_time = 0.25`, `dt = 0.1` (binary64 values): the grid is `0, 0.1, 0.2` (two steps are taken), yet with
+    sampling off the observable's `times` says `0.25` — the single entry is the value at `0.2` -/
+example :
+    let T : Rat := 1 / 4
+    let dt : Rat := 3602879701896397 / 2 ^ 55
+    Grid.timesQ T dt = some [0, dt, 3602879701896397 / 2 ^ 54] ∧
+    (allocate ⟨.analog, 1, 0, false, 0, [0, dt, 3602879701896397 / 2 ^ 54], T⟩ .loc).times = .scalar (1 / 4) ∧
+    (allocate ⟨.analog, 1, 0, true, 0, [0, dt, 3602879701896397 / 2 ^ 54], T⟩ .loc).times
+      = .grid [0, dt, 3602879701896397 / 2 ^ 54] := by decide +kernel
+
+/-- **C12 (weak mode: the merged counts)**  `aggregate_measurements`:
+    (a) if every slot holds a dict, the result is the key-sorted merge and its counts total `Σ` of the slots' totals;
+    (b) if some slot is `None` and slot 0 holds a dict, the result is slot 0 (key-sorted), the other slots are ignored;
+    (c) if slot 0 is `None`, the assertion fails;
+    (d) it is the function `Params.aggregate` that C12's `counts_total` and C20's history theorems are about
+        (`filter(None, …)` additionally drops empty dicts, which contribute nothing). -/
+theorem aggregate_measurements_total :
+    (∀ l : List Counts, ∃ c, aggregateMeasurements (l.map some) = .ok c ∧ c = sortCounts (l.foldl addAll []) ∧
+      total c = (l.map total).sum) ∧
+    (∀ (c : Counts) (rest : List (Option Counts)), hasNone rest = true →
+      aggregateMeasurements (some c :: rest) = .ok (sortCounts c)) ∧
+    (∀ rest : List (Option Counts), aggregateMeasurements (none :: rest) = .error .assertFirstNone) ∧
+    (∀ ms : List (Option Counts), aggregateMeasurements ms = Params.aggregate ms) := by
+  refine ⟨?_, ?_, ?_, aggregateMeasurements_eq_params⟩
+  · intro l
+    refine ⟨_, aggregate_all_dicts l, rfl, ?_⟩
+    rw [Params.total_sortCounts, Params.total_foldl_addAll]; simp [total]
+  · intro c rest h
+    have : hasNone (some c :: rest) = true := by simpa [hasNone] using h
+    simp [aggregateMeasurements, this]
+  · intro rest
+    simp [aggregateMeasurements, hasNone]
+
+example : aggregateMeasurements [some [(3, 1)], some [(0, 1)], some [(3, 1)]] = .ok [(0, 1), (3, 2)] ∧
+    aggregateMeasurements [some [(3, 2), (0, 5)], none, none] = .ok [(0, 5), (3, 2)] ∧
+    aggregateMeasurements [some [(3, 2)], some [], some [(1, 1)]] = .ok [(1, 1), (3, 2)] ∧
+    aggregateMeasurements [none, some [(3, 2)]] = .error .assertFirstNone ∧
+    aggregateDropFirst [some [(3, 1)], some [(0, 1)], some [(3, 1)]] = [(0, 1), (3, 1)] := by decide +kernel
+
+/-- **C12 (which branch a run takes)**  `_run_weak_sim` allocates `[None] * shots` and fills slot `i` from trajectory `i`
+    (`shots ≥ 1`).  The test `None in measurements` is true **iff the run is noise-free and `shots ≥ 2`** (one
+    trajectory filled slot 0 only).  Noise-free with `shots = 1`: no `None` is left, the merge branch runs over the
+    single dict — and still returns slot 0 (a dict's keys are distinct).  So a noise-free run always delivers the
+    key-sorted slot 0, total = what the single trajectory drew; a noisy run delivers the merge of all `shots` slots,
+    total `Σ_i total(slot i)` (= `shots` when every trajectory draws one sample, C12 `counts_total`).
+    More trajectories than slots (`shots = 0`, noise-free) is an `IndexError` (`none`). -/
+theorem weak_branch (shots : Nat) (res : Nat → Counts) :
+    (1 ≤ shots → ∀ nf : Bool, ∃ ms, weakSlots shots res (if nf then 1 else shots) = some ms ∧ ms.length = shots ∧
+      (hasNone ms = true ↔ nf = true ∧ 2 ≤ shots)) ∧
+    (1 ≤ shots → ((res 0).map (·.1)).Nodup →
+      ∃ ms, runWeakStore shots true res = some ⟨ms, decide (2 ≤ shots), .ok (sortCounts (res 0))⟩) ∧
+    (∃ ms c, runWeakStore shots false res = some ⟨ms, false, .ok c⟩ ∧
+      total c = ((List.range shots).map (fun i => total (res i))).sum) ∧
+    runWeakStore 0 true res = none := by
+  have hmm : ∀ n, (List.range n).map (fun i => some (res i)) = ((List.range n).map res).map some := by
+    intro n; simp [List.map_map, Function.comp_def]
+  refine ⟨?_, ?_, ?_, ?_⟩
+  · intro h1 nf
+    cases nf with
+    | true =>
+      refine ⟨((List.range 1).map res).map some ++ List.replicate (shots - 1) none,
+        by simp [weakSlots, h1], by simp; omega, ?_⟩
+      rw [hasNone_append_replicate]; simp; omega
+    | false =>
+      refine ⟨((List.range shots).map res).map some ++ List.replicate (shots - shots) none,
+        by simp [weakSlots, hmm], by simp, ?_⟩
+      rw [hasNone_append_replicate]; simp
+  · intro h1 hnd
+    refine ⟨some (res 0) :: List.replicate (shots - 1) none, ?_⟩
+    have hslots : weakSlots shots res 1 = some (some (res 0) :: List.replicate (shots - 1) none) := by
+      simp [weakSlots, h1]
+    have hhas : hasNone (some (res 0) :: List.replicate (shots - 1) none) = decide (2 ≤ shots) := by
+      have := hasNone_append_replicate [res 0] (shots - 1)
+      simp only [List.map_cons, List.map_nil, List.singleton_append] at this
+      rw [this]; congr 1; apply propext; omega
+    unfold runWeakStore
+    simp only [if_true, hslots, hhas]
+    by_cases h2 : 2 ≤ shots
+    · have hrest : hasNone (List.replicate (shots - 1) none) = true := by
+        obtain ⟨m, hm⟩ : ∃ m, shots - 1 = m + 1 := ⟨shots - 2, by omega⟩
+        simp [hm, hasNone, List.replicate_succ]
+      rw [aggregate_measurements_total.2.1 (res 0) _ hrest]
+    · have hs : shots - 1 = 0 := by omega
+      rw [hs]
+      have := aggregate_all_dicts [res 0]
+      simp only [List.map_cons, List.map_nil, List.foldl_cons, List.foldl_nil] at this
+      simp only [List.replicate_zero]
+      rw [this, addAll_fresh [] (res 0) (by simpa using hnd)]
+      simp
+  · obtain ⟨c, hc, _, htot⟩ := aggregate_measurements_total.1 ((List.range shots).map res)
+    refine ⟨((List.range shots).map res).map some, c, ?_, ?_⟩
+    · unfold runWeakStore
+      simp only [Bool.false_eq_true, if_false, weakSlots, Nat.le_refl, if_true, hmm, Nat.sub_self,
+        List.replicate_zero, List.append_nil, hasNone_map_some, hc]
+    · rw [htot]; simp [List.map_map, Function.comp_def]
+  · simp [runWeakStore, weakSlots]
+
+/-- `shots = 1` noise-free takes the merge branch, `shots = 3` noise-free the slot-0 branch, noisy always merges -/
+example :
+    runWeakStore 1 true (fun _ => [(2, 1)]) = some ⟨[some [(2, 1)]], false, .ok [(2, 1)]⟩ ∧
+    runWeakStore 3 true (fun _ => [(2, 2), (1, 1)])
+      = some ⟨[some [(2, 2), (1, 1)], none, none], true, .ok [(1, 1), (2, 2)]⟩ ∧
+    runWeakStore 3 false (fun i => [(i % 2, 1)])
+      = some ⟨[some [(0, 1)], some [(1, 1)], some [(0, 1)]], false, .ok [(0, 2), (1, 1)]⟩ := by decide +kernel
+
+/-- **C15 (sanity: the mean of equal trajectories is that trajectory)**  e.g. a noise-free model run with several
+    identical trajectories. -/
+theorem mean_of_constant (k : ObsKind) (hk : k ≠ .schmidt) (cols n : Nat) (r : List Rat) (hr : r.length = cols)
+    (hn : 0 < n) : aggregateObs k cols (List.replicate n r) = .values r := by
+  have : aggregateObs k cols (List.replicate n r) = meanAxis0 cols (List.replicate n r) := by
+    cases k <;> first | rfl | exact absurd rfl hk
+  rw [this, meanAxis0_replicate cols n r hr hn]
+
+example : aggregateObs .loc 3 (List.replicate 4 [1/3, 2, -5]) = .values [1/3, 2, -5] := by decide +kernel
+
+/-- **C15 (averaging commutes with affine maps)**  Applying `x ↦ a·x + c` to every stored value and then averaging
+    is the same as averaging and then applying it (any table with rows of `cols` entries, the empty one included). -/
+theorem mean_linear (cols : Nat) (a c : Rat) (t : List (List Rat)) (h : ∀ r ∈ t, r.length = cols) :
+    meanAxis0 cols (t.map (·.map (fun x => a * x + c))) = (meanAxis0 cols t).map (fun x => a * x + c) :=
+  meanAxis0_affine cols a c t h
+
+/-- **C15 (averaging is additive)**  The mean of the entrywise sum of two equally shaped tables is the sum of
+    their means (so the mean of `⟨A⟩ + ⟨B⟩` trajectories is the sum of the reported results). -/
+theorem mean_additive (cols : Nat) (t u : List (List Rat)) (hl : t.length = u.length) (hne : t ≠ [])
+    (ht : ∀ r ∈ t, r.length = cols) (hu : ∀ r ∈ u, r.length = cols) :
+    meanAxis0 cols (List.zipWith (List.zipWith (· + ·)) t u) =
+      .values ((List.range cols).map (fun k => colSum t k / (t.length : Rat) + colSum u k / (u.length : Rat))) :=
+  meanAxis0_add cols t u hl hne ht hu
+
+example : meanAxis0 2 ([[1, 4], [3, 0]].map (·.map (fun x => 2 * x + 1))) = .values [5, 5] ∧
+    (meanAxis0 2 [[1, 4], [3, 0]]).map (fun x => 2 * x + 1) = .values [5, 5] ∧
+    meanAxis0 2 (List.zipWith (List.zipWith (· + ·)) [[1, 4], [3, 0]] [[1, 1], [0, 2]]) = .values [5/2, 7/2] := by
+  decide +kernel
+
+/-- complex128 storage: real and imaginary parts are averaged separately, each as in `results_is_mean` -/
+example : meanAxis0C 2 [[(1, 1), (0, -2)], [(3, 0), (1, 2)]] = (.values [2, 1/2], .values [1/2, 0]) := by
+  decide +kernel
+
+end Yaqs.Storage
